@@ -1,2 +1,35 @@
-(* C19 - placeholder until the theorems are proved *)
-Require Import WD.Base.Prelude WD.Model.Pipeline.
+(* C19 - Event paths keep the caller's path type and the entry's exact name, all backends.
+   Only statements; every proof is `exact <lemma>`. *)
+Require Import WD.Base.Prelude WD.Base.BStr WD.Model.SubEvents WD.Model.Emitter WD.Model.PathTypes
+               WD.Proofs.PathProofs.
+
+(* ------------------------------------------------------------------ NAME law: path algebra *)
+(* The parent of root/rel/n is root/rel - for every root that is non-empty and does not end in '/', and all valid
+   entry names (non-empty, no '/', no NUL; any other byte, decodable or not). *)
+Theorem C19_dirname : forall root, root <> [] -> last_is_sep root = false ->
+  forall rel n, forallb valid_name rel = true -> valid_name n = true ->
+  dirname (root ++ relsuffix (rel ++ [n])) = root ++ relsuffix rel.
+Proof. exact dirname_rooted. Qed.
+Print Assumptions C19_dirname.
+
+(* ------------------------------------------------------------------ NAME law: the emitter *)
+(* For an item whose raw paths are rooted and content trees with valid names, every path of every event of one
+   queue_events() call - real, parent-directory and synthetic alike - is empty or rooted.  The single exception is
+   DirModifiedEvent(dirname(root)), which arises only from an item that is about the root itself ([r_path = root]) in
+   one of the branches that report the parent directory. *)
+Theorem C19_event_paths : forall root, root <> [] -> last_is_sep root = false ->
+  forall full rec wp content it,
+  (forall r, In r (item_raws it) -> rooted root (r_path r)) ->
+  (forall p, wf_tree (content p) = true) ->
+  forall e, In e (fst (emit full rec wp content it)) ->
+    ev_ok root e \/ (e = parent_modified root /\ exists r, In r (item_raws it) /\ r_path r = root).
+Proof. exact emit_paths. Qed.
+Print Assumptions C19_event_paths.
+
+Theorem C19_event_paths_below : forall root, root <> [] -> last_is_sep root = false ->
+  forall full rec wp content it,
+  (forall r, In r (item_raws it) -> below root (r_path r)) ->
+  (forall p, wf_tree (content p) = true) ->
+  forall e, In e (fst (emit full rec wp content it)) -> ev_ok root e.
+Proof. exact emit_paths_below. Qed.
+Print Assumptions C19_event_paths_below.
